@@ -173,6 +173,8 @@ func runIPServer(ctx context.Context, log *slog.Logger, mtrcs *ipServerMetrics,
 			}
 			if !addedCookie {
 				log.LogAttrs(ctx, slog.LevelInfo, "failed to add at least one cookie")
+				// no reply will be sent: drop the exchange from the timestamp store
+				updateTXTimestamp(clientID, rxt, &txt0)
 				continue
 			}
 
@@ -183,6 +185,8 @@ func runIPServer(ctx context.Context, log *slog.Logger, mtrcs *ipServerMetrics,
 		n, err = conn.WriteToUDPAddrPort(buf, srcAddr)
 		if err != nil || n != len(buf) {
 			log.LogAttrs(ctx, slog.LevelError, "failed to write packet", slog.Any("error", err))
+			// no reply was sent: drop the exchange from the timestamp store
+			updateTXTimestamp(clientID, rxt, &txt0)
 			continue
 		}
 		txt1, id, err := udp.ReadTXTimestampByID(conn, txid)
